@@ -868,6 +868,119 @@ fn cmd_gen(args: &[String]) {
 }
 
 // ------------------------------------------------------------------------------------------------
+// fonts with TrueType outlines: the vertical origin comes from the glyph's own box
+
+/// `c16 glyf --seed S --n N --per K`: cmap/hmtx(/vmtx) fonts with rectangular outlines, plain PUA texts, all
+/// directions; every glyph is compared with the values the font's own tables prescribe (HarfBuzz's fallback
+/// for the vertical origin: without VORG, with extents: y_bearing + tsb when vmtx exists, else the box centred
+/// in ascender - descender with FLOOR division; without extents: the ascender).
+fn cmd_glyf(args: &[String]) {
+    let seed = arg_u64(args, "--seed", 1);
+    let n = arg_u64(args, "--n", 50);
+    let per = arg_u64(args, "--per", 8);
+    let mut rng = Rng::new(seed ^ 0x617F);
+    let (mut shapes, mut glyphs, mut vertical, mut nontrivial, mut viol) = (0u64, 0u64, 0u64, 0u64, 0u64);
+    for fi in 0..n {
+        let ng = rng.range(4, 12) as u16;
+        let mut spec = FontSpec::basic(ng);
+        spec.ascender = rng.range(0, 1200) as i16 - 100;
+        spec.descender = -(rng.range(0, 600) as i16) + 50;
+        spec.hadv = (0..ng).map(|_| rng.range(0, 1500) as u16).collect();
+        if rng.chance(1, 2) {
+            spec.vmetrics = Some(VMetrics { ascender: 500, descender: -500, line_gap: 0, vadv: (0..ng).map(|_| rng.range(0, 2500) as u16).collect() });
+        }
+        let line = spec.ascender as i32 - spec.descender as i32;
+        let boxes: Vec<Option<[i16; 4]>> = (0..ng)
+            .map(|g| {
+                if g == 0 || rng.chance(1, 6) {
+                    return None;
+                }
+                let x0 = rng.range(0, 400) as i16 - 200;
+                let y0 = rng.range(0, 1200) as i16 - 600;
+                // heights around the line height (odd and even differences, taller and shorter), and arbitrary ones
+                let h: i32 = match rng.below(4) {
+                    0 => line + rng.range(0, 40) as i32 - 20,
+                    1 => line + 1 + 2 * rng.range(0, 300) as i32,
+                    2 => rng.range(1, 3000) as i32,
+                    _ => rng.range(1, 800) as i32,
+                };
+                let h = h.clamp(1, 20000);
+                Some([x0, y0, x0 + rng.range(1, 1200) as i16, (y0 as i32 + h).min(32000) as i16])
+            })
+            .collect();
+        spec.glyf = Some(boxes.clone());
+        let bytes = build(&spec);
+        let Some(face) = Face::from_slice(&bytes, 0) else {
+            println!("anomaly glyf-font {} rejected", fi);
+            continue;
+        };
+        // the writer is read back through the library
+        for g in 1..ng {
+            let bb = face.glyph_bounding_box(rustybuzz::ttf_parser::GlyphId(g)).map(|r| [r.x_min, r.y_min, r.x_max, r.y_max]);
+            if bb != boxes[g as usize] {
+                println!("anomaly glyf-font {} glyph {} box {:?} reads back as {:?}", fi, g, boxes[g as usize], bb);
+            }
+        }
+        let hx = hex(&bytes);
+        for _ in 0..per {
+            let mut base = Req::default();
+            let len = rng.range(1, 8);
+            for i in 0..len {
+                base.text.push((pua(rng.range(1, ng as u64 - 1) as u32 - 1), i as u32));
+            }
+            base.level = rng.below(3) as u8;
+            for d in DIRS {
+                let mut req = base.clone();
+                req.dir = d;
+                let eff = effective_dir(&req);
+                let r2 = req.clone();
+                let Ok(out) = catch(std::panic::AssertUnwindSafe(|| shape_req(&face, &r2))) else { continue };
+                shapes += 1;
+                glyphs += out.len() as u64;
+                let vert = matches!(eff, Direction::TopToBottom | Direction::BottomToTop);
+                if vert {
+                    vertical += 1;
+                }
+                let mut bad: Option<String> = None;
+                let mut used_box = false;
+                for g in &out {
+                    let gid = g.gid as usize;
+                    if gid >= ng as usize {
+                        bad = Some(format!("glyph {} beyond the font", gid));
+                        break;
+                    }
+                    let hadv = spec.hadv[gid] as i32;
+                    let want = if !vert {
+                        (hadv, 0, 0, 0)
+                    } else {
+                        let vadv = match &spec.vmetrics { Some(vm) => vm.vadv[gid] as i32, None => line };
+                        // an empty glyph of a font with outlines has extents too: all zero (as in HarfBuzz's glyf accelerator)
+                        let [_, y0, _, y1] = boxes[gid].unwrap_or([0, 0, 0, 0]);
+                        used_box |= boxes[gid].is_some();
+                        let vorg = if spec.vmetrics.is_some() { y1 as i32 } else { y1 as i32 + (line + (y0 as i32 - y1 as i32)).div_euclid(2) };
+                        (0, -vadv, -(hadv / 2), -vorg)
+                    };
+                    if (g.xa, g.ya, g.xo, g.yo) != want {
+                        bad = Some(format!("glyph {} box {:?}: got adv {},{} off {},{} want adv {},{} off {},{}", gid, boxes[gid], g.xa, g.ya, g.xo, g.yo, want.0, want.1, want.2, want.3).replace(' ', ";"));
+                        break;
+                    }
+                }
+                if vert && used_box {
+                    nontrivial += 1;
+                }
+                if let Some(b) = bad {
+                    viol += 1;
+                    if viol <= 5 {
+                        println!("viol fonthex={} index=0 var=- req={} dir={} what=outline-font-metrics:{} nf=- out={}", hx, fmt_req(&req).replace(' ', "~"), dir_name(Some(eff)), b, fmt_out(&out));
+                    }
+                }
+            }
+        }
+    }
+    println!("glyf-summary fonts={} shapes={} glyphs={} vertical={} nontrivial={} viol={}", n, shapes, glyphs, vertical, nontrivial, viol);
+}
+
+// ------------------------------------------------------------------------------------------------
 // single request (replays) and the witness of the known finding
 
 fn cmd_one(args: &[String]) {
@@ -928,6 +1041,7 @@ pub fn run(args: &[String]) {
         Some("simple") => cmd_simple(rest),
         Some("inv") => cmd_inv(rest),
         Some("gen") => cmd_gen(rest),
+        Some("glyf") => cmd_glyf(rest),
         Some("one") => cmd_one(rest),
         Some("witness") => cmd_witness(rest),
         _ => {
